@@ -10,6 +10,7 @@ VARIABLES l
 Fail(e, c) == <<[tid |-> e.tid, i |-> e.i, clause |-> c]>>
 Chk(cond, e, c) == IF cond THEN <<>> ELSE Fail(e, c)
 
+RefTok(line) == IF Len(line) = 2 /\ IsW(line[1], "group-object") THEN line[2].s ELSE ""      \* IOS: group-object NAME
 HeadKind(plat, h) ==
   CASE Len(h) >= 3 /\ IsW(h[1], "ip") /\ IsW(h[2], "access-list") -> "acl"
     [] plat = "ios" /\ Len(h) = 3 /\ IsW(h[1], "object-group") /\ IsW(h[2], "network") -> "group"
@@ -72,7 +73,9 @@ Clauses(e) ==
              Chk(Len(e.got) = Len(gs) /\ \A k \in 1..Len(gs) :
                    /\ e.got[k].name = gs[k].name
                    /\ Len(e.got[k].members) = Len(gs[k].body)
-                   /\ \A j \in 1..Len(gs[k].body) : Norm(e.got[k].members[j]) = ParseMember(e.plat, gs[k].body[j]).w, e, "C07.address-groups"))
+                   /\ \A j \in 1..Len(gs[k].body) :
+                         IF RefTok(gs[k].body[j]) # "" THEN e.got[k].members[j].ref = RefTok(gs[k].body[j])
+                         ELSE e.got[k].members[j].ref = "" /\ Norm(e.got[k].members[j].w) = ParseMember(e.plat, gs[k].body[j]).w, e, "C07.address-groups"))
     [] OTHER -> Fail(e, "machinery.unknown-action")
 
 Report(cs) == IF cs = <<>> THEN TRUE ELSE PrintT(ToJson([verdicts |-> cs]))
